@@ -109,6 +109,7 @@ type Contract struct {
 	Trusted  bool
 	NoReturn bool
 	Pure     bool
+	Unreachable bool // never called: a static call is an obligation `false`; the body is not verified
 	Constructor bool // establishes the receiver's type invariant: not assumed at entry, not required at call sites
 	Skip     bool   // never verify body (outside subset); requires Trusted semantics at call sites
 	Ghost    []string
@@ -317,6 +318,9 @@ func loadPkgSpec(path, pkgPath string) (*PkgSpec, error) {
 				return nil, err
 			}
 			cur.ChanInvs = append(cur.ChanInvs, d)
+		case "unreachable":
+			cur.Unreachable = true
+			cur.Skip = true
 		case "constructor":
 			cur.Constructor = true
 		case "inline":
